@@ -489,6 +489,12 @@ def loadFrom (d : Disk) : List (String × Bool) → TD → TD
 
 def loadAll (d : Disk) : TD := loadFrom d Gen.loadOrder {}
 
+/-- the update calls `GET /updateCache?names=<names>` makes (`transit_routing_http_server.cpp`): per name, in handler
+    order (`Gen.updateCacheNames`), on the tables now in memory, reading the files `d`; return values are ignored -/
+def updateNames (d : Disk) (names : List String) (td : TD) : TD :=
+  names.foldl (fun td name =>
+    Gen.updateCacheNames.foldl (fun td p => if name = p.1 ∨ name = "all" then (applyCall d p.2 td).2 else td) td) td
+
 def TD.count (td : TD) (coll : String) : Nat :=
   if coll = "agencies" then td.agencies.length
   else if coll = "services" then td.services.length
